@@ -14,13 +14,14 @@ from mc.engine import Acc
 LEVEL = 'exploration'
 RULE = ('full product: roots of x^2-d, x^3-d, exp(x)-d, log(x)-d, tanh(x)-d, x^3+x-d and the two-component d0*x-d1 and the three-component d0*x^2+d1*x-d2 x guesses '
         'on both sides of the root x layouts of d {single chain, two replicas irregular, two ensembles, with covariance input, '
-        'pure covariance input}, d with central value exactly 0 (covariance input, symmetric samples, first component of a vector); integrals of p0+p1 x+p2 x^2, exp(p0 x), sin(p0 x), cos(p0 x)+p1, p0/(1+x^2) x every subset of '
+        'pure covariance input}, d with central value exactly 0 (covariance input, symmetric samples, first component of a vector); integrals of p0+p1 x+p2 x^2, exp(p0 x), sin(p0 x), cos(p0 x)+p1, p0/(1+x^2), p0 x exp(-p1 x^2), p0/(p1+x) x every subset of '
         '{every parameter, a, b} being observables (2^k subsets) x assignment of layouts to the observable slots {all equal, different '
         'configuration subsets, different ensembles, covariance inputs} x orientation a<b and a>b; no observable => scipy\'s '
         'tuple; call history: three functions sharing one code object (factory closures, lambda in a loop) for find_root (scalar and vector d) and quad, called in every order x 3 layouts; the trigonometric integrals again through quad(weight=cos|sin, wvar) with observable parameters.  Non-trivial = at least one observable and not (single chain, equal layouts)')
 ASSUMPTIONS = ['closed-form inverses / antiderivatives and their partial derivatives are written out in this file',
                'comparison of a flat reference propagation with the implementation to 1e-8 (root finder / quadrature tolerance)']
 EXHAUSTIVE = True
+REPEAT = 2      # every case is evaluated twice in the same process: the second verdict must equal the first (call-history oracle)
 CHUNK = 1
 
 D_LAYOUTS = {
@@ -365,6 +366,15 @@ def _integrands():
                   lambda p, x: math.sin(p[0] * x) / p[0] + p[1] * x,
                   [lambda p, x: (x * p[0] * math.cos(p[0] * x) - math.sin(p[0] * x)) / p[0] ** 2, lambda p, x: x],
                   lambda p, x: math.cos(p[0] * x) + p[1]),
+        'gauss-x': (lambda p, x: p[0] * x * a.exp(-p[1] * x ** 2), [1.1, 0.7],
+                    lambda p, x: -p[0] / (2 * p[1]) * math.exp(-p[1] * x * x),
+                    [lambda p, x: -math.exp(-p[1] * x * x) / (2 * p[1]),
+                     lambda p, x: p[0] * math.exp(-p[1] * x * x) * (1 / (2 * p[1] ** 2) + x * x / (2 * p[1]))],
+                    lambda p, x: p[0] * x * math.exp(-p[1] * x * x)),
+        'log': (lambda p, x: p[0] / (p[1] + x), [0.9, 1.6],
+                lambda p, x: p[0] * math.log(p[1] + x),
+                [lambda p, x: math.log(p[1] + x), lambda p, x: p[0] / (p[1] + x)],
+                lambda p, x: p[0] / (p[1] + x)),
         'lorentz': (lambda p, x: p[0] / (1 + x ** 2), [1.4],
                     lambda p, x: p[0] * math.atan(x),
                     [lambda p, x: math.atan(x)],
@@ -372,7 +382,7 @@ def _integrands():
     }
 
 
-INTEGRANDS = ['poly', 'exp', 'sin', 'cos+c', 'lorentz']
+INTEGRANDS = ['poly', 'exp', 'sin', 'cos+c', 'lorentz', 'gauss-x', 'log']
 
 SLOT_ASSIGN = {
     'equal': lambda i: 'single',
@@ -395,7 +405,8 @@ def run_quad(pe, acc, case):
     func, pvals, F, dF, fplain = _integrands()[case['integrand']]
     npar = len(pvals)
     slots = ['p%d' % i for i in range(npar)] + ['a', 'b']
-    for orient, (av, bv) in (('a<b', (0.2, 1.1)), ('a>b', (1.3, 0.4))):
+    orients = [('a<b', (0.2, 1.1)), ('a>b', (1.3, 0.4))] + ([('a<0<b', (-0.7, 0.9)), ('wide', (0.05, 3.0))] if os.environ.get('VERIF_TIER') == 'thorough' else [])
+    for orient, (av, bv) in orients:
         for k in range(0, len(slots) + 1):
             for obs_slots in itertools.combinations(slots, k):
                 for assign in (SLOT_ASSIGN if k > 0 else ['equal']):
